@@ -843,6 +843,8 @@ def _plan_for(v, thorough):
     if isinstance(v, ML):  # part D: a literal over several physical lines
         plan = []
         for form in ML_FORMS:
+            if not thorough and len(v) == 3 and form != "mltdq":
+                continue  # quick: the 216 three-line sequences in one form; 1, 2 and the 4-line ones in all
             plan.append((form, "mid", True, ("u", "c", "lu") if len(v) <= 2 else ("u",)))
             for pos in ML_POSITIONS[1:] if thorough else ("cont", "contc"):
                 plan.append((form, pos, True, ("u",)))
@@ -1069,7 +1071,7 @@ def run(ctx):
         plan_txt = f"middle position on the unthreaded alias for every value; length<=1 and the probes on all six delivery paths (probes longer than 1: five, without list-alias->child), with $EXPAND_ENV_VARS=False (also through the list alias when the value contains $ or ~), and in the 4 other positions (redirect/capture positions on the three direct paths for length<=1); length-2 values containing $ or ~ also through the list alias and with $EXPAND_ENV_VARS=False; the forms {list(QUICK_TINY_ONLY)} only for length<=1 and the probes' closure"
     plan_txt += f"; part B: variable Q set to every non-empty sequence of <= {maxlen} of the tokens {list(VTOKENS)} ($W='{ENV_W}', files matching the globs present) and used as {[a for a, _, _ in ENV_FORMS.values()]} (%s = the same text written literally, expected verbatim) on the unthreaded alias directly and through the list alias (single tokens: all six paths), expected = the value substituted verbatim exactly once, 3 s alarm per execution"
     plan_txt += f"; part C: {len(kw_values)} words of <= {3 if ctx.thorough else 2} tokens over a keyword K and {list(KDECOR)} that contain K, for K in {list(KEYWORDS)}" + ("" if ctx.thorough else f" plus the three-token shapes {[''.join(t) for t in KSHAPES3]}") + f", as a plain word (bare and/or excepted) in the positions {list(KW_POSITIONS)} (bef*/aft* = directly before/after a real `and` / `&&`: two commands written, exactly two must run; otherwise exactly one) and in the forms {list(FORMS if ctx.thorough else KW_FORMS_QUICK)}"
-    plan_txt += f"; part D: literals written over 1..{ctx.pick(3, 4)} physical lines, every sequence of the line kinds {ML_LINES} (Q = a line with the other triple quote)" + ("" if ctx.thorough else " plus the 36 four-line sequences plain,x,y,plain") + f", in the forms {dict(ML_FORMS)} where Python accepts the literal (raw: without the backslash lines, see the known finding), as the middle argument (<=2 lines: also real child and list alias), with the command continued after the literal by backslash-newline, and by backslash-newline + a comment-only line" + (", and as first / last argument" if ctx.thorough else "") + "; expected = the Python value of the literal"
+    plan_txt += f"; part D: literals written over 1..{ctx.pick(3, 4)} physical lines, every sequence of the line kinds {ML_LINES} (Q = a line with the other triple quote)" + ("" if ctx.thorough else " plus the 36 four-line sequences plain,x,y,plain; three-line sequences only as \"\"\"...\"\"\"") + f", in the forms {dict(ML_FORMS)} where Python accepts the literal (raw: without the backslash lines, see the known finding), as the middle argument (<=2 lines: also real child and list alias), with the command continued after the literal by backslash-newline, and by backslash-newline + a comment-only line" + (", and as first / last argument" if ctx.thorough else "") + "; expected = the Python value of the literal"
     ctx.coverage.update(
         evaluations=evals,
         distinct_nontrivial=nontrivial,
